@@ -42,9 +42,11 @@ func init() {
 type quicPeer struct {
 	ln      *scion.QUICListener
 	port    int
+	dead    *net.UDPConn // bound, never read: the address of a peer that does not answer
 	mu      sync.Mutex
 	cur     *script
-	hellos  int // ClientHellos that reached the peer's TLS stack since begin()
+	hellos  int  // ClientHellos that reached the peer's TLS stack since begin()
+	expect  bool // the first of them offered a protocol of the script's list: that handshake can complete
 	obs     []connObs
 	handled chan struct{}
 }
@@ -56,15 +58,22 @@ func newQUICPeer(ip net.IP) *quicPeer {
 		NextProtos:   []string{"ntske/1"},
 		MinVersion:   tls.VersionTLS13,
 		// one configuration per connection attempt: the ALPN list of the current script
-		GetConfigForClient: func(*tls.ClientHelloInfo) (*tls.Config, error) {
+		GetConfigForClient: func(chi *tls.ClientHelloInfo) (*tls.Config, error) {
 			p.mu.Lock()
 			p.hellos++
 			sc := p.cur
-			p.mu.Unlock()
 			var alpn []string
 			if sc != nil {
 				alpn = append(alpn, sc.alpn...)
 			}
+			if p.hellos == 1 {
+				for _, a := range alpn {
+					if hasProto(chi.SupportedProtos, a) {
+						p.expect = true
+					}
+				}
+			}
+			p.mu.Unlock()
 			return &tls.Config{Certificates: []tls.Certificate{cert}, NextProtos: alpn, MinVersion: tls.VersionTLS13}, nil
 		},
 	}
@@ -74,11 +83,18 @@ func newQUICPeer(ip net.IP) *quicPeer {
 	}
 	p.ln = ln
 	p.port = ln.Addr().(udp.UDPAddr).Host.Port
+	p.dead, err = net.ListenUDP("udp", &net.UDPAddr{IP: ip, Port: 0})
+	if err != nil {
+		panic(err)
+	}
 	go p.acceptLoop()
 	return p
 }
 
-func (p *quicPeer) close() { p.ln.Close() }
+func (p *quicPeer) close() {
+	p.ln.Close()
+	p.dead.Close()
+}
 
 func (p *quicPeer) acceptLoop() {
 	for {
@@ -204,19 +220,22 @@ func (p *quicPeer) begin(sc *script) {
 	p.mu.Lock()
 	p.cur = sc
 	p.hellos = 0
+	p.expect = false
 	p.obs = nil
 	p.mu.Unlock()
 }
 
 // end returns the number of connection attempts that reached the peer and what it saw of the
-// first connection.  A client whose handshake completed has had its connection accepted before
-// it could read a byte of the answer; when the handshake can complete (or the client says it
-// did) the acceptance is waited for.
-func (p *quicPeer) end(expectAccept bool) (int, connObs) {
+// first connection.  When FetchData has returned, a ClientHello it caused has been processed (the
+// client cannot get an answer, or an alert, before); a client whose handshake completed has had
+// its connection accepted before it could read a byte of the answer.  Whether the handshake can
+// complete is decided by crypto/tls from the protocols the client really offered and the script's
+// list; if it can, the acceptance is waited for.
+func (p *quicPeer) end() (int, connObs) {
 	p.mu.Lock()
-	seen := p.hellos > 0 // a client that got any answer has had its ClientHello processed before
+	expect := p.expect
 	p.mu.Unlock()
-	if expectAccept && seen {
+	if expect {
 		select {
 		case <-p.handled:
 		case <-time.After(30 * time.Second):
@@ -262,7 +281,9 @@ func newQUICFetcher(r *lib.Rng) *ntske.Fetcher {
 	cfg.ServerName = addrA.String()
 	f.TLSConfig = cfg
 	f.QUIC.Enabled = true
-	f.QUIC.LocalAddr = udp.UDPAddr{IA: quicIA, Host: &net.UDPAddr{IP: addrA}}
+	// the client's own address differs from the peer's, so that a default target taken from the
+	// wrong end of the connection shows
+	f.QUIC.LocalAddr = udp.UDPAddr{IA: quicIA, Host: &net.UDPAddr{IP: addrB}}
 	return f
 }
 
@@ -277,12 +298,12 @@ func hasProto(l []string, p string) bool {
 
 // doFetchQUIC is doFetch for a Fetcher with QUIC.Enabled.
 func doFetchQUIC(p *quicPeer, f *ntske.Fetcher, o *op) (string, bool, ntske.Data) {
-	host := addrA
+	port := p.port
 	if o.sc.mode == 1 {
-		host = addrB // no QUIC listener there
+		port = p.dead.LocalAddr().(*net.UDPAddr).Port // nothing answers there
 	}
-	o.host = host.String()
-	f.QUIC.RemoteAddr = udp.UDPAddr{IA: quicIA, Host: &net.UDPAddr{IP: host, Port: p.port}}
+	o.host = addrA.String()
+	f.QUIC.RemoteAddr = udp.UDPAddr{IA: quicIA, Host: &net.UDPAddr{IP: addrA, Port: port}}
 	p.begin(&o.sc)
 	ch := make(chan fetchRes, 1)
 	go func() {
@@ -295,7 +316,7 @@ func doFetchQUIC(p *quicPeer, f *ntske.Fetcher, o *op) (string, bool, ntske.Data
 	case <-time.After(120 * time.Second):
 		panic("FetchData over QUIC did not return within 120 s")
 	}
-	conns, co := p.end(res.err == nil || (o.sc.mode == 0 && hasProto(o.sc.alpn, "ntske/1")))
+	conns, co := p.end()
 	cls := classifyQUIC(res.err, co.hsOK)
 	items := []string{lib.I(int64(conns)), lib.Bool(co.hsOK), lib.B([]byte(co.negotiated)), lib.B(co.c2s), lib.B(co.s2c), lib.I(int64(cls))}
 	items = append(items, fmtData(res.d)...)
